@@ -706,6 +706,21 @@ def predicate(ctx, c, state):
         ctx.count('zero-mass component(s)')
     if isinstance(ra, Raised) or any(isinstance(p, Raised) for p in parts):
         ctx.count('tuple incomplete (a method raised)')
+        case = {'particle': c['descr'], 'inputs': c['x'], 'flash': fo}
+        if not isinstance(ra, Raised):
+            # the bundled call returns, an individual method raises on the same arguments: the two paths disagree
+            for mth, p in zip(bundle, parts):
+                if isinstance(p, Raised):
+                    ctx.violation('individual-raised:%s:%s' % (mth, p.text.split(':')[0]),
+                                  'the individual method raises on arguments for which return_all returns a tuple',
+                                  dict(case, method=mth, exception=p.text, return_all=ra))
+        elif not any(isinstance(p, Raised) for p in parts):
+            ctx.violation('return_all-raised:%s' % ra.text.split(':')[0],
+                          'return_all raises on arguments for which every individual method returns',
+                          dict(case, exception=ra.text, individual=[p for p in parts]))
+        else:
+            state['both_raised'] = state.get('both_raised', 0) + 1
+            ctx.count('both paths raised (state not valid for this particle)')
         return
     if kind == 'fluid':
         ind = [parts[0][0], parts[1][0], parts[2][0], parts[3][0], parts[4][0], parts[5][0], parts[6][0],
@@ -838,6 +853,14 @@ def run(ctx, lean_ok):
                not k['bad_shape'], str(k['bad_shape'][:3]))
     ctx.oblige('library contract DirtyIgnoresMuP: %d recorded dirty us_ellipsoid/xfer_sphere/xfer_ellipsoid calls repeated '
                'with another particle viscosity give the identical answer' % k['ndirty'], not k['bad_dirty'], str(k['bad_dirty'][:3]))
+    nraised = sum(len(v) for v in raises.values())
+    ctx.oblige('method calls that raised: %d of %d (ceiling 2 %%); cases in which BOTH paths raised: %d of %d (ceiling 2 %%) — a raise of one '
+               'path only is a keyed violation' % (nraised, state['nlines'] + nraised, state.get('both_raised', 0), state['ncases']),
+               nraised <= 0.02 * max(state['nlines'] + nraised, 1) and state.get('both_raised', 0) <= 0.02 * max(state['ncases'], 1),
+               str(sorted(raises))[:400])
+    nskip = ctx.hist.get('mixed-phase state skipped (flash slower than 60 ms)', 0)
+    ctx.oblige('mixed-phase states skipped because of a slow flash: %d of %d planned fluid cases (ceiling 25 %%)' % (nskip, nfl),
+               nskip <= 0.25 * nfl, 'too many generated cases were skipped: the sample no longer covers the quantifier')
     ctx.notes.append('%d of %d cases with differing tuples' % (state['nviol'], state['ncases']))
     for kk, lst in sorted(raises.items()):
         d, x, text = lst[0]
